@@ -26,10 +26,12 @@ def gen_pair(rng):
     """the same exchange with and without size_limit (transparency), around the limits"""
     L = rng.choice([1, 2, 5, 10, 64, 100, 1000])
     total = rng.choice([0, max(0, L - 1), L, L + 1, 3 * L + 7, 0, L])
-    method = rng.choice(["GET", "GET", "POST", "HEAD"])
+    method = rng.choice(["GET", "GET", "POST", "HEAD", "PUT", "GET+", "DELETE+"])
     reqL = rng.choice([1, 8, 100])
-    reqlen = rng.choice([0, reqL - 1, reqL, reqL + 1, 5 * reqL]) if method == "POST" else 0
-    mode = rng.choice(["cl", "cl", "chunked"]) if method == "POST" else "cl"
+    withbody = method in ("POST", "PUT") or method.endswith("+")     # a declared body is a body whatever the method
+    method = method.rstrip("+")
+    reqlen = rng.choice([0, reqL - 1, reqL, reqL + 1, 5 * reqL]) if withbody else 0
+    mode = rng.choice(["cl", "cl", "chunked"]) if withbody else "cl"
     ops = rwgen.response_ops(rng, total=total, with_cl=(rng.random() < 0.3))
     pos = rng.choice(["sl", "log+sl", "sl+log", "pr.1+sl+pr.2", "hdr+sl"])
     chain = pos.replace("sl", "sl.%d.%d" % (reqL, L))
@@ -90,6 +92,14 @@ def check(ctx):
     episodes = [gen_pair(ctx.rng) for _ in range(n)]
     corpus = C.load_corpus(ID)
     bad = d.check(corpus + episodes, oracle=oracle_pair, label="sizelimit")
+    # one plugin instance serving several exchanges in a row (over-limit, cut short, ordinary)
+    sess = []
+    for _ in range(150 if ctx.thorough() else 30):
+        L = ctx.rng.choice([5, 64, 100, 1000])
+        pos = ctx.rng.choice(["sl", "log+sl", "pr.1+sl+pr.2", "gz.5.10.text%2F+sl"])
+        sess.append(rwgen.session_episode(ctx.rng, pos.replace("sl", "sl.1000.%d" % L), limit=L))
+    d.check(sess, oracle=lambda e, o: rwgen.session_oracle(e, o) or [], label="sizelimit-session")
+    ctx.cov["session_episodes"] = len(sess)
     nontriv = set()
     hit413 = trunc = 0
     if bad == 0:
